@@ -20,7 +20,7 @@ the address order of the real overload set is C06's subject.
 import itertools
 
 import vf.loader  # noqa: F401
-from vf.core import Result, chunks
+from vf.core import Result
 from vf import resolution as R
 from models import resolve as M
 
